@@ -49,4 +49,32 @@ Definition first_src (o : nat) (h : list (option (list nat) * list (nat * str)))
 (* option o needs its default: not recorded as parsed, has a default, not defaulted yet *)
 Definition needs_default (parsed : list nat) (cs : nat -> @cell val var) (o : nat) (d : str) : Prop :=
   mem o parsed = false /\ o_dflt (odesc o) = Some d /\ c_state (cs o) <> VALUE_DEFAULTED.
+(* state after a source without duplicate / refused pair *)
+Definition after_source (parsed : list nat) (excl : option (list nat)) (cs : (nat -> @cell val var)) (src : list (nat * str))
+           (p' : list nat) (cs' : (nat -> @cell val var)) : Prop :=
+  (forall j, mem j p' = mem j parsed || (negb (skipped parsed excl j) && mentions j src)) /\
+  (forall j, if skipped parsed excl j || negb (mentions j src) then cs' j = cs j
+             else c_state (cs' j) = VALUE_UNASSIGNED /\ c_vals (cs' j) = c_vals (cs j) ++ accepted j src /\
+                  c_var (cs' j) = store_all j (accepted j src) (c_var (cs j))).
+
+Definition err_of (r : option err * list nat * (nat -> @cell val var) * bool) : option err := fst (fst (fst r)).
+
+Definition recorded (parsed : list nat) (cs : (nat -> @cell val var)) (p' : list nat) (cs' : (nat -> @cell val var)) : Prop :=
+  (forall o, clean (cs' o)) /\
+  (forall o, mem o p' = true <-> (mem o parsed = true \/ c_vals (cs' o) <> c_vals (cs o))) /\
+  (forall o, c_vals (cs' o) <> c_vals (cs o) -> c_state (cs' o) = VALUE_UNASSIGNED) /\
+  (forall o, c_vals (cs' o) = c_vals (cs o) -> c_state (cs' o) = c_state (cs o)) /\
+  (forall o, exists l, c_vals (cs' o) = c_vals (cs o) ++ l).
+
+Definition all_none (es : list (option err)) : Prop := Forall (fun e => e = None) es.
+
+Definition defaults_valid (parsed : list nat) (cs : (nat -> @cell val var)) (os : list nat) : Prop :=
+  forall o d, In o os -> needs_default parsed cs o d -> parser o (eff odesc o d) <> None.
+
+Definition after_defaults (parsed : list nat) (cs cs' : (nat -> @cell val var)) (os : list nat) : Prop :=
+  forall o, (In o os -> forall d, needs_default parsed cs o d ->
+               exists x, parser o (eff odesc o d) = Some x /\
+                         cs' o = mkCell VALUE_DEFAULTED (c_vals (cs o) ++ [x]) (store o x (c_var (cs o)))) /\
+            ((~ In o os \/ forall d, ~ needs_default parsed cs o d) -> cs' o = cs o).
+
 End Spec.
